@@ -366,6 +366,16 @@ func (sm *Subscriptions) ProcessWhenArgs(e *Event) []chan struct{} {
 	return ret
 }
 
+// ProcessWhenArgsCtx collects WhenArgs subscriptions with expired contexts
+// and returns theirs channels.
+func (sm *Subscriptions) ProcessWhenArgsCtx() []chan struct{} {
+	// locks
+	sm.Mx.Lock()
+	defer sm.Mx.Unlock()
+
+	return sm.processWhenArgsCtx()
+}
+
 func (sm *Subscriptions) processWhenArgsCtx() []chan struct{} {
 	var ret []chan struct{}
 
